@@ -251,11 +251,12 @@ pub fn record(seed: u64, n: usize, cli: Option<&str>) -> Vec<J> {
             obs1.push(concrete(&o, &s1).to_string());
             let mut changed = vec![];
             let mut renamed = vec![];
+            let mut renamed_named: Vec<usize> = vec![];
             for (i, b) in before.iter().enumerate() {
-                if after[i].0 != b.0 { changed.push(i); } else if after[i].1 != b.1 { renamed.push(i); }
+                if after[i].0 != b.0 { changed.push(i); } else if after[i].1 != b.1 { renamed.push(i); if b.1 != "None" { renamed_named.push(i); } }
             }
             if r.chance(1, 3) || !changed.is_empty() || renamed.len() > 1 {
-                out.push(json!({"ev":"heap","src":st,"cells_before":before.len(),"cells_after":after.len(),"changed":changed,"renamed":renamed,
+                out.push(json!({"ev":"heap","src":st,"cells_before":before.len(),"cells_after":after.len(),"changed":changed,"renamed":renamed,"renamed_named":renamed_named,
                                 "is_assignment": st.contains(" = ")}));
             }
         }
